@@ -40,6 +40,10 @@ CHECKS['C09'] = dict(
     level='proof',
     text='Theorems in Coq: get_next_available_stream_id (the function translated from the source) returns, for every watermark, the least unused id of the endpoint parity, or NoAvailableStreamIDError exactly beyond 2^31-1 (lia, all integers); a stream is opened only with an id above the watermark of its direction and of the required parity, a refused id changes nothing (c = c); classification of a too-low peer id into stream error / STREAM_CLOSED / PROTOCOL_ERROR; both watermarks are monotone over EVERY history (induction over all operations, unbounded); PRIORITY frames leave watermarks and stream tables untouched. The 2^31-1 upper bound for user-chosen ids is refuted (known finding F-C09-1).',
     design='7.C09', technique='Coq: kernel theorem by lia + invariant by induction over histories (compositional prover) + differential correspondence')
+CHECKS['C10'] = dict(
+    level='proof',
+    text='Theorems in Coq over the connection model: exactly the open and the two half-closed states count (generated STREAM_OPEN table, by computation; reserved streams do not); open_outbound_streams / open_inbound_streams return the RFC count and the lazy clean-up of closed streams changes no count; a locally opened stream succeeds only if count + 1 <= the peer limit and otherwise raises TooManyStreamsError with nothing emitted; a peer HEADERS beyond the acknowledged local limit is rejected and one within it passes the check (both comparisons extracted from connection.py). The full outbound bound is refuted for reserved-stream activation (known finding F-C10-1, vm_compute witness). Churn programs with limit changes on both sides are compared with the model; an oracle recounts streams independently.',
+    design='7.C10', technique='Coq theorems over the connection model with extracted guards + table computation + differential correspondence')
 NA_REASON = {}
 def main():
     checks = []
